@@ -48,6 +48,8 @@ impl IchimokuCloud {
 		r is Ok ==> r->Ok_0.highest1.window.view().len() == self.l1 && r->Ok_0.highest2.window.view().len() == self.l2 && r->Ok_0.highest3.window.view().len() == self.l3
 			&& r->Ok_0.lowest1.window.view().len() == self.l1 && r->Ok_0.lowest2.window.view().len() == self.l2 && r->Ok_0.lowest3.window.view().len() == self.l3,
 		r is Ok ==> r->Ok_0.window1.view().len() == self.m && r->Ok_0.window2.view().len() == self.m,
+		// C08: the constant state for this candle (ichimoku_const_step)
+		r is Ok ==> r->Ok_0.const_state(candle),
 //@replace Ok(Self::Instance { ==> Ok(IchimokuCloudInstance {
 //@end
 }
@@ -95,6 +97,50 @@ impl IchimokuCloudInstance {
 		assert(ichimoku_signals(old(self), src, self, r.vals()[0], r.vals()[1], r.vals()[2], r.vals()[3], r.sigs()[0], r.sigs()[1], s1_cross, s2_cross));
 	}
 //@end
+}
+
+// ---- C08 at indicator level: IchimokuCloud on a repeated candle: all four lines equal (high + low) / 2, no signals
+pub open spec fn all_eq(v: Seq<R>, s: real) -> bool { forall|i: int| 0 <= i < v.len() ==> (#[trigger] v[i])@ == s }
+impl IchimokuCloudInstance {
+	pub open spec fn const_state<T: OHLCV>(&self, c: &T) -> bool {
+		let (h, l, m) = (c.high_s()@, c.low_s()@, (c.high_s()@ + c.low_s()@) / 2real);
+		&&& self.inv()
+		&&& all_eq(self.highest1.window.view(), h) && all_eq(self.highest2.window.view(), h) && all_eq(self.highest3.window.view(), h)
+		&&& all_eq(self.lowest1.window.view(), l) && all_eq(self.lowest2.window.view(), l) && all_eq(self.lowest3.window.view(), l)
+		&&& all_eq(self.window1.view(), m) && all_eq(self.window2.view(), m)
+		&&& self.cross1.up.last_delta@ == 0real
+		&&& (self.cross2.up.last_delta@ == 0real || self.cross2.up.last_delta@ == src_val(c, self.cfg.source) - m)
+	}
+}
+pub proof fn lemma_shift_all_eq(pre: Seq<R>, post: Seq<R>, x: real, s: real)
+	requires all_eq(pre, s), post.len() == pre.len(), post.len() >= 1, post.drop_last() =~= pre.drop_first(), post.last()@ == x, x == s
+	ensures all_eq(post, s)
+{
+	assert forall|i: int| 0 <= i < post.len() implies (#[trigger] post[i])@ == s by {
+		if i < post.len() - 1 { assert(post[i] == post.drop_last()[i] && post.drop_last()[i] == pre.drop_first()[i] && pre.drop_first()[i] == pre[i + 1]); }
+		else { assert(post[i] == post.last()); }
+	}
+}
+pub proof fn ichimoku_const_step<T: OHLCV>(pre: &IchimokuCloudInstance, c: &T, src: ValueType, post: &IchimokuCloudInstance, tenkan: ValueType, kijun: ValueType, span_a: ValueType, span_b: ValueType,
+	h1: ValueType, l1: ValueType, h2: ValueType, l2: ValueType, h3: ValueType, l3: ValueType, s1: Action, s2: Action, c1: Action, c2: Action)
+	requires pre.const_state(c), post.inv(), post.cfg == pre.cfg, src@ == src_val(c, pre.cfg.source),
+		ichimoku_values(pre, c, post, tenkan, kijun, span_a, span_b, h1, l1, h2, l2, h3, l3),
+		ichimoku_signals(pre, src, post, tenkan, kijun, span_a, span_b, s1, s2, c1, c2)
+	ensures tenkan@ == (c.high_s()@ + c.low_s()@) / 2real, kijun@ == tenkan@, span_a@ == tenkan@, span_b@ == tenkan@, s1 is None, s2 is None, post.const_state(c)
+{
+	let (h, l) = (c.high_s()@, c.low_s()@);
+	let m = (h + l) / 2real;
+	let hv = c.high_s(); let lv = c.low_s();
+	lemma_shift_all_eq(pre.highest1.window.view(), post.highest1.window.view(), h, h);
+	lemma_shift_all_eq(pre.highest2.window.view(), post.highest2.window.view(), h, h);
+	lemma_shift_all_eq(pre.highest3.window.view(), post.highest3.window.view(), h, h);
+	lemma_shift_all_eq(pre.lowest1.window.view(), post.lowest1.window.view(), l, l);
+	lemma_shift_all_eq(pre.lowest2.window.view(), post.lowest2.window.view(), l, l);
+	lemma_shift_all_eq(pre.lowest3.window.view(), post.lowest3.window.view(), l, l);
+	assert(h1@ == h && h2@ == h && h3@ == h && l1@ == l && l2@ == l && l3@ == l);
+	assert(pre.window1.view()[0]@ == m && pre.window2.view()[0]@ == m);
+	lemma_shift_all_eq(pre.window1.view(), post.window1.view(), (tenkan@ + kijun@) * 0.5real, m);
+	lemma_shift_all_eq(pre.window2.view(), post.window2.view(), (h3@ + l3@) * 0.5real, m);
 }
 } // verus!
 fn main() {}
